@@ -1,91 +1,3 @@
-// ======== std assumptions (VecDeque parts missing from vstd) ========
-pub assume_specification<T, A: std::alloc::Allocator> [std::collections::VecDeque::<T, A>::is_empty] (v: &VecDeque<T, A>) -> (r: bool)
-    ensures r == (v@.len() == 0);
-pub assume_specification<T, A: std::alloc::Allocator> [std::collections::VecDeque::<T, A>::front] (v: &VecDeque<T, A>) -> (r: Option<&T>)
-    ensures v@.len() == 0 ==> r.is_none(), v@.len() > 0 ==> r.is_some() && *r.unwrap() == v@[0];
-pub assume_specification<T, A: std::alloc::Allocator> [std::collections::VecDeque::<T, A>::front_mut] (v: &mut VecDeque<T, A>) -> (r: Option<&mut T>)
-    ensures old(v)@.len() == 0 ==> r.is_none() && final(v)@ == old(v)@,
-            old(v)@.len() > 0 ==> r.is_some() && *r.unwrap() == old(v)@[0] && final(v)@ == old(v)@.update(0, *final(r.unwrap()));
-
-// ======== RefCell shim (rule R1/R3: interior mutability made explicit) ========
-pub struct RefCell<T> { pub v: T }
-impl<T> RefCell<T> {
-    pub fn borrow(&self) -> (r: &T) ensures *r == self.v { &self.v }
-    pub fn borrow_mut(&mut self) -> (r: &mut T) ensures *r == old(self).v, *final(r) == final(self).v { &mut self.v }
-}
-
-// ======== UTF-8 model ========
-pub open spec fn enc_len(c: char) -> nat {
-    if (c as u32) < 0x80 { 1 } else if (c as u32) < 0x800 { 2 } else if (c as u32) < 0x10000 { 3 } else { 4 }
-}
-pub open spec fn enc(c: char) -> Seq<u8> {
-    let n = c as u32;
-    if n < 0x80 { seq![n as u8] }
-    else if n < 0x800 { seq![(0xC0 + n / 64) as u8, (0x80 + n % 64) as u8] }
-    else if n < 0x10000 { seq![(0xE0 + n / 4096) as u8, (0x80 + (n / 64) % 64) as u8, (0x80 + n % 64) as u8] }
-    else { seq![(0xF0 + n / 262144) as u8, (0x80 + (n / 4096) % 64) as u8, (0x80 + (n / 64) % 64) as u8, (0x80 + n % 64) as u8] }
-}
-pub open spec fn utf8(s: Seq<char>) -> Seq<u8>
-    decreases s.len()
-{
-    if s.len() == 0 { Seq::<u8>::empty() } else { enc(s[0]) + utf8(s.drop_first()) }
-}
-/// number of whole characters of `s` that fit in the first `n` bytes
-pub open spec fn cidx(s: Seq<char>, n: nat) -> nat
-    decreases s.len()
-{
-    if s.len() == 0 || enc_len(s[0]) > n { 0 } else { 1 + cidx(s.drop_first(), (n - enc_len(s[0])) as nat) }
-}
-pub open spec fn is_boundary(s: Seq<char>, n: nat) -> bool {
-    utf8(s.take(cidx(s, n) as int)).len() == n
-}
-
-// ======== tendril shim: content as a sequence of scalar values; contracts ASSUMED ========
-pub struct StrTendril { pub s: Vec<char> }
-pub struct Chars { pub s: Vec<char> }
-impl View for StrTendril { type V = Seq<char>; open spec fn view(&self) -> Seq<char> { self.s@ } }
-impl StrTendril {
-    #[verifier::external_body]
-    pub fn len32(&self) -> (r: u32) ensures r as nat == utf8(self@).len() { unimplemented!() }
-    #[verifier::external_body]
-    pub fn len(&self) -> (r: usize) ensures r as nat == utf8(self@).len() { unimplemented!() }
-    #[verifier::external_body]
-    pub fn is_empty(&self) -> (r: bool) ensures r == (self@.len() == 0) { unimplemented!() }
-    #[verifier::external_body]
-    pub fn pop_front_char(&mut self) -> (r: Option<char>)
-        ensures old(self)@.len() == 0 ==> r.is_none() && final(self)@ == old(self)@,
-                old(self)@.len() > 0 ==> r == Some(old(self)@[0]) && final(self)@ == old(self)@.drop_first(),
-    { unimplemented!() }
-    #[verifier::external_body]
-    pub unsafe fn unsafe_subtendril(&self, offset: u32, length: u32) -> (r: StrTendril)
-        requires offset == 0, length as nat <= utf8(self@).len(), is_boundary(self@, length as nat),
-        ensures r@ == self@.take(cidx(self@, length as nat) as int)
-    { unimplemented!() }
-    #[verifier::external_body]
-    pub unsafe fn unsafe_pop_front(&mut self, n: u32)
-        requires n as nat <= utf8(old(self)@).len(), is_boundary(old(self)@, n as nat),
-        ensures final(self)@ == old(self)@.skip(cidx(old(self)@, n as nat) as int)
-    { unimplemented!() }
-    #[verifier::external_body]
-    pub fn pop_front(&mut self, n: u32)
-        requires n as nat <= utf8(old(self)@).len(), is_boundary(old(self)@, n as nat),
-        ensures final(self)@ == old(self)@.skip(cidx(old(self)@, n as nat) as int)
-    { unimplemented!() }
-    #[verifier::external_body]
-    pub fn as_bytes(&self) -> (r: &[u8]) ensures r@ == utf8(self@) { unimplemented!() }
-    #[verifier::external_body]
-    pub fn as_str(&self) -> (r: &str) ensures r@ == self@, r.spec_bytes() == utf8(self@), utf8(self@).len() <= u32::MAX { unimplemented!() }
-    #[verifier::external_body]
-    pub fn chars(&self) -> (r: Chars) ensures r.s@ == self@ { unimplemented!() }
-}
-impl Chars {
-    #[verifier::external_body]
-    pub fn next(&mut self) -> (r: Option<char>)
-        ensures old(self).s@.len() == 0 ==> r.is_none(),
-                old(self).s@.len() > 0 ==> r == Some(old(self).s@[0]) && final(self).s@ == old(self).s@.drop_first(),
-    { unimplemented!() }
-}
-
 // ======== BufferQueue abstraction ========
 pub open spec fn flat(b: Seq<StrTendril>) -> Seq<char>
     decreases b.len()
